@@ -374,6 +374,9 @@ def assemble(unit_path, repo=REPO):
         elif d == 'type':
             file, kind, name = toks[1], toks[2], toks[3]
             rest = toks[4:]
+            if not hasattr(asm, 'types_seen'):
+                asm.types_seen = set()
+            asm.types_seen.add(name)
             src = rsx.Source.get(os.path.join(repo, file))
             text = rsx.strip_attrs(rsx.strip_comments(src.item(kind, name)))
             derive = [t for t in rest if t.startswith('derive(')]
@@ -521,6 +524,11 @@ def assemble(unit_path, repo=REPO):
                 if o:
                     opts[o] = True
             sig = rsx.strip_comments(sig)
+            if kv.get('slice'):
+                var, fld = kv['slice'].split('.')
+                body, nd = rsx.slice_body(body, var, fld)
+                asm.manual.append('%s: program slice w.r.t. %s (%d top-level statements that only touch other fields dropped; see rsx.slice_body for the rule)' % (fnrec.key, kv['slice'], nd))
+                rw.note('program-slice-by-field', 1)
             for old, new in contract['bodyrep']:
                 if old not in body:
                     raise ExtractError('%s: body replace anchor lost: %r' % (fnrec.name, old))
